@@ -149,6 +149,30 @@ theorem copy_eq (L : Layout) (hwf : L.wf = true) (h : Hdr) (hok : h.ok L = true)
     show (⟨e, parse L e (serialize L e vals)⟩ : Hdr) = ⟨e, vals⟩
     rw [fields_roundtrip L hwf e vals hok]
 
+/-- `as_byteswapped(code)` for EVERY target (none, the current order, the other order — however the
+    code was spelled, once resolved by `endian_codes`): the result carries the requested order, exposes
+    identical field values and compares equal to the original both ways round. -/
+theorem asByteswappedTo_faithful (L : Layout) (hwf : L.wf = true) (h : Hdr) (hok : h.ok L = true)
+    (t : Option Endian) :
+    (asByteswappedTo L h t).e = t.getD h.e.swap ∧ (asByteswappedTo L h t).vals = h.vals ∧
+    hdrEq L h (asByteswappedTo L h t) = true ∧ hdrEq L (asByteswappedTo L h t) h = true := by
+  have hsw := asByteswapped_vals L hwf h hok
+  have heq := eq_swapped L hwf h hok
+  cases t with
+  | none => exact ⟨hsw.1, hsw.2, heq.1, heq.2⟩
+  | some t =>
+    by_cases ht : t = h.e
+    · simp only [asByteswappedTo, ht, if_true, copy_eq L hwf h hok, Option.getD_some]
+      exact ⟨rfl, rfl, (hdrEq_iff_vals L hwf h h hok hok).mpr rfl, (hdrEq_iff_vals L hwf h h hok hok).mpr rfl⟩
+    · have hts : t = h.e.swap := by
+        cases t <;> cases he : h.e <;> simp_all [Endian.swap]
+      simp only [asByteswappedTo, ht, if_false, Option.getD_some]
+      subst hts
+      exact ⟨rfl, hsw.2, heq.1, heq.2⟩
+
+example : asByteswappedTo Gen.mghFooter (ofBytes Gen.mghFooter .be (List.replicate 20 (3 : Byte))) (some .be)
+    = ofBytes Gen.mghFooter .be (List.replicate 20 (3 : Byte)) := by decide +kernel
+
 theorem setObj_length (L : Layout) (s : Heap) (j : Nat) (n : String) (v : List Nat) :
     (Heap.setObj L s j n v).length = s.length := by
   unfold Heap.setObj; split <;> simp
@@ -469,6 +493,16 @@ theorem dtcodes_consistent :
     dtTableOk Gen.analyzeCodes = true ∧ dtTableOk Gen.nifti1Codes = true ∧
     (∀ r ∈ Gen.analyzeCodes, dtFind Gen.nifti1Codes r.code = some r) ∧
     (Gen.mghCodes.map (·.1)).Nodup ∧ (∀ r ∈ Gen.mghCodes, r.2.2.1 = r.2.2.2.1 ∧ r.2.2.2.2 = true) := by
+  decide +kernel
+
+/-- `endian_codes`: spellings distinct; '<' / '>' mean themselves; 'native' / 'swapped' follow the
+    machine order the table was generated on; both orders have at least three spellings -/
+theorem endian_aliases_consistent :
+    (Gen.endianAliases.map (·.1)).Nodup ∧
+    endianOf? Gen.endianAliases "<" = some .le ∧ endianOf? Gen.endianAliases ">" = some .be ∧
+    endianOf? Gen.endianAliases "native" = some Gen.nativeCode ∧
+    endianOf? Gen.endianAliases "swapped" = some Gen.nativeCode.swap ∧
+    3 ≤ (Gen.endianAliases.filter (·.2 == .le)).length ∧ 3 ≤ (Gen.endianAliases.filter (·.2 == .be)).length := by
   decide +kernel
 
 /-- every header class: sane float format, 0 is a valid xform code, the single-file offset constant
